@@ -80,7 +80,19 @@ func c13Views(doc *gedcom.Document, pointers, tags map[string]bool) map[string]s
 	}
 	sort.Strings(tagList)
 	c13Walk(doc.Nodes(), "", func(n gedcom.Node, p string) {
-		for _, t := range tagList {
+		// tags of the node's present children plus every tag an edit has touched so far
+		local := map[string]bool{}
+		for _, k := range n.Nodes() {
+			local[k.Tag().Tag()] = true
+		}
+		ts := append([]string{}, tagList...)
+		for t := range local {
+			if !tags[t] {
+				ts = append(ts, t)
+			}
+		}
+		sort.Strings(ts)
+		for _, t := range ts {
 			tag := gedcom.TagFromString(t)
 			gedcom.NodesWithTag(n, tag) // the cache only stores from the second lookup on
 			if r := gedcom.NodesWithTag(n, tag); len(r) > 0 {
@@ -166,7 +178,6 @@ func (m *c13Mon) check(cause string) {
 		m.violation("undecodable-text:"+cause, fmt.Sprintf("after %s the document's text no longer decodes: %v", cause, err))
 		return
 	}
-	c13Walk(m.doc.Nodes(), "", func(n gedcom.Node, p string) { m.tags[n.Tag().Tag()] = true })
 	live := c13Views(m.doc, m.pointers, m.tags)
 	want := c13Views(fresh, m.pointers, m.tags)
 	keys := map[string]bool{}
@@ -351,6 +362,7 @@ func c13DeleteChildNode(m *c13Mon, r *fw.Rand) {
 	p := cands[r.Intn(len(cands))]
 	kids := p.Nodes()
 	c := kids[r.Intn(len(kids))]
+	m.tags[c.Tag().Tag()] = true
 	m.edit("DeleteNode("+p.Tag().Tag()+","+c.Tag().Tag()+")", func() string {
 		gedcom.NodesWithTag(p, c.Tag())
 		gedcom.NodesWithTag(p, c.Tag())
@@ -375,6 +387,9 @@ func c13SetNodes(m *c13Mon, r *fw.Rand) {
 	p := all[r.Intn(len(all))]
 	m.edit("SetNodes("+p.Tag().Tag()+")", func() string {
 		old := p.Nodes()
+		for _, k := range old {
+			m.tags[k.Tag().Tag()] = true
+		}
 		for _, k := range old {
 			gedcom.NodesWithTag(p, k.Tag())
 			gedcom.NodesWithTag(p, k.Tag())
@@ -652,6 +667,7 @@ func c13DeleteWithTag(m *c13Mon, r *fw.Rand) {
 	}
 	p := cands[r.Intn(len(cands))]
 	tag := p.Nodes()[r.Intn(len(p.Nodes()))].Tag()
+	m.tags[tag.Tag()] = true
 	m.edit("DeleteNodesWithTag("+p.Tag().Tag()+","+tag.Tag()+")", func() string {
 		gedcom.NodesWithTag(p, tag)
 		gedcom.NodesWithTag(p, tag)
@@ -826,8 +842,10 @@ func c13NewMon(c *fw.Ctx, text, otherText string) *c13Mon {
 	}
 	other, _ := gedcom.NewDocumentFromString(otherText)
 	m := &c13Mon{c: c, doc: doc, other: other, pointers: map[string]bool{}, tags: map[string]bool{}}
+	for _, t := range []string{"NAME", "BIRT", "HUSB", "WIFE", "CHIL", "FAMS", "FAMC"} {
+		m.tags[t] = true
+	}
 	c13Walk(doc.Nodes(), "", func(n gedcom.Node, p string) {
-		m.tags[n.Tag().Tag()] = true
 		if n.Pointer() != "" {
 			m.pointers[n.Pointer()] = true
 		}
@@ -878,15 +896,19 @@ func c13Run(c *fw.Ctx, i int) {
 		return
 	}
 	r := c.R
-	g := gen.NewFG(r, gen.FGOpts{People: r.Range(0, 25), MultiNames: true, WithSources: true, NoLiving: true})
+	people := r.Range(0, 10)
+	if r.Chance(1, 6) {
+		people = r.Range(11, 25)
+	}
+	g := gen.NewFG(r, gen.FGOpts{People: people, MultiNames: true, WithSources: true, NoLiving: true})
 	g2 := gen.NewFG(r, gen.FGOpts{People: r.Range(0, 8), PtrPrefix: "J"})
 	m := c13NewMon(c, g.Text(), g2.Text())
 	if m == nil {
 		return
 	}
 	steps := r.Range(30, 200)
-	if len(g.People) > 12 {
-		steps = r.Range(30, 80)
+	if len(g.People) > 10 {
+		steps = r.Range(30, 60)
 	}
 	c13ReadViews(m, r)
 	for s := 0; s < steps && !m.failed; s++ {
